@@ -455,8 +455,9 @@ class HtmlToAst(HTMLParser):
 
     def handle_endtag(self, name: str):
         """When found a closing tag then makes it point to the right scope."""
-        if name not in self.void_elements and not self.struct.enclose(name):
-            # an end tag without an open element: keep it, rather than drop it
+        if name in self.void_elements or not self.struct.enclose(name):
+            # an end tag without an open element (void elements are never open):
+            # keep it, rather than drop it
             self.struct.nest_terminal(Data, f"</{name}>")
 
     def handle_data(self, data: str):
